@@ -200,7 +200,11 @@ def classify(ex, rec, code, grounded=False):
     short-circuited quantifier)."""
     tags = ["c01"]
     dev = bool(code & 1 and code & 2)                      # differs from the documented step and from the semantic-level model
-    proved_dropped = grounded and bool(code & G_UNDEF) and not code & (G_CONFLICT | G_VARS | G_OUTSIDE | 4)
+    # a vanished forall variable of an ASSIGNMENT effect is harmless by itself (the same value is assigned once instead
+    # of once per object), so with G_UNDEF set the deviation is still the simplified-away undefined read, e.g.
+    # `forall v: f := (b(v) implies b(v))` with some b(o) undefined
+    vars_harmless = not code & G_VARS or not has_forall_incdec(rec) if grounded else True
+    proved_dropped = grounded and bool(code & G_UNDEF) and not code & (G_CONFLICT | G_OUTSIDE | 4) and vars_harmless
     if rec["apply"] is not None and dev and (proved_dropped or dropped_undefined_read(ex, rec)):
         tags.append("grounder-simplification-drops-undefined-read")
         tags.append("impl-applicable")
